@@ -175,6 +175,14 @@ fn signature(layered: bool, arith: &str, fam: &[(Small, Vec<Vec<f64>>)]) -> Vec<
     sig
 }
 
+fn gcd(a: usize, b: usize) -> usize {
+    if b == 0 {
+        a
+    } else {
+        gcd(b, a % b)
+    }
+}
+
 fn check_binding(acc: &mut Acc, extra: &mut serde_json::Map<String, Value>) {
     let fam: Vec<(Small, Vec<Vec<f64>>)> = family_matrices().into_iter().map(|(_, m)| (m.clone(), family_vectors(&m))).collect();
     let fam_size: usize = fam.iter().map(|(_, v)| v.len()).sum::<usize>() * LIMITS.len();
@@ -212,6 +220,73 @@ fn check_binding(acc: &mut Acc, extra: &mut serde_json::Map<String, Value>) {
             }
         }
     });
+    // a long code (more than 4096 ones, stored in a scrambled order): factory-built vs directly built
+    {
+        let (r, n) = (700usize, 1400usize);
+        let mut edges: Vec<(usize, usize)> = Vec::new();
+        for j in 0..n {
+            let mut rs = vec![(j * 7 + 1) % r, (j * 13 + 5) % r, (j * 29 + 11) % r];
+            rs.sort_unstable();
+            rs.dedup();
+            for i in rs {
+                edges.push((i, j));
+            }
+        }
+        let build = || {
+            let mut h = ldpc_toolbox::sparse::SparseMatrix::new(r, n);
+            let len = edges.len();
+            let step = (1009..).find(|s| gcd(*s, len) == 1).unwrap();
+            for k in 0..len {
+                let (i, j) = edges[(k * step + 17) % len];
+                h.insert(i, j);
+            }
+            h
+        };
+        let mut x = 0x5DEE_CE66_D1CE_4E5Bu64;
+        let vecs: Vec<Vec<f64>> = (0..3)
+            .map(|_| {
+                (0..n)
+                    .map(|_| {
+                        x ^= x << 13;
+                        x ^= x >> 7;
+                        x ^= x << 17;
+                        let mag = [0.4, 1.1, 2.3, 3.9, 6.2, 9.5, 14.6, 0.07][(x >> 20) as usize % 8];
+                        if (x >> 40) % 5 == 0 {
+                            -mag
+                        } else {
+                            mag
+                        }
+                    })
+                    .collect()
+            })
+            .collect();
+        let a3 = par_items(&names, |name, a| {
+            let (layered, arith) = dec::parse_name(name);
+            let mut f = dec::factory_build(name, build()).unwrap();
+            let mut d = dec::direct_build(layered, arith, build());
+            for (vi, v) in vecs.iter().enumerate() {
+                for l in [1usize, 5] {
+                    a.evals += 1;
+                    a.nontrivial += 1;
+                    let rf = guard(|| f.decode(v, l));
+                    let rd = guard(|| d.decode(v, l));
+                    if rf != rd {
+                        let diff = match (&rf, &rd) {
+                            (Ok(x), Ok(y)) => {
+                                let (ox, oy) = (x.as_ref().unwrap_or_else(|e| e), y.as_ref().unwrap_or_else(|e| e));
+                                format!("iterations {} vs {}, first differing bit {:?}", ox.iterations, oy.iterations, ox.codeword.iter().zip(oy.codeword.iter()).position(|(p, q)| p != q))
+                            }
+                            _ => "one of them panicked".to_string(),
+                        };
+                        a.violate(format!("binding:long:{}", name), format!("on the 700x1400 code (4200 ones, scrambled storage order), vector #{} limit {}: factory-built and directly built {} disagree ({})", vi, l, name, diff), json!({"kind": "binding-long", "name": name}));
+                        return;
+                    }
+                }
+            }
+        });
+        let taken = std::mem::take(acc);
+        *acc = taken.merge(a3);
+    }
     let taken = std::mem::take(acc);
     *acc = taken.merge(a);
     // separation matrix over all 48 direct combinations
@@ -301,7 +376,7 @@ pub fn run(run: &Run) -> i32 {
         run,
         acc,
         Coverage {
-            rule: "all 36 names (parse, print, command-line value list) exhaustively; every string at edit distance 1 over [A-Za-z0-9] from a name, case-folded and whitespace-padded variants, the 12 plausible non-existent HL names and a few literals (must be rejected unless the edit yields another name); behavioural binding: for each name the factory-built decoder vs the generic decoder built directly from (HL prefix => horizontal_layered, remainder => arithmetic type by the harness's own 24-arm match) on a family of 3 matrices x all non-codeword sign patterns at 6 magnitudes and boundary-value substitutions x limits {1,2,5}. The family's separation of all 48 (schedule, arithmetic) combinations is measured (extra.separation_*). Non-trivial = call that ran iterations (binding) or string outside the name set (rejection).".into(),
+            rule: "all 36 names (parse, print, command-line value list) exhaustively; every string at edit distance 1 over [A-Za-z0-9] from a name, case-folded and whitespace-padded variants, the 12 plausible non-existent HL names and a few literals (must be rejected unless the edit yields another name); behavioural binding: for each name the factory-built decoder vs the generic decoder built directly from (HL prefix => horizontal_layered, remainder => arithmetic type by the harness's own 24-arm match) on a family of 3 matrices x all non-codeword sign patterns at 6 magnitudes and boundary-value substitutions x limits {1,2,5}, plus a 700x1400 code with 4200 ones stored in a scrambled order (3 vectors x limits {1,5}). The family's separation of all 48 (schedule, arithmetic) combinations is measured (extra.separation_*). Non-trivial = call that ran iterations (binding) or string outside the name set (rejection).".into(),
             exhaustive: true,
             extra,
             graph: None,
